@@ -122,7 +122,11 @@ class Runner:
                               + inc + ['-c', src, '-o', real], timeout=600)
         if rc != 0:
             raise Inconclusive('g++ failed on %s wrappers:\n%s' % (u.name, err[-3000:]))
-        u.dir = d; u.meta = meta; u.build_s = t + t2 + t3
+        # the translated C, compiled natively once (used by every translation-validation harness of this unit)
+        rc, out, err, t4 = sh(['gcc', '-O1', '-w', '-I' + RT, '-c', os.path.join(d, 'gen.c'), '-o', os.path.join(d, 'gen.o')], timeout=900)
+        if rc != 0:
+            raise Inconclusive('gcc failed on the generated C of %s:\n%s' % (u.name, err[-3000:]))
+        u.dir = d; u.meta = meta; u.build_s = t + t2 + t3 + t4
         return u
 
     def hpaths(self, u):
@@ -135,7 +139,7 @@ class Runner:
         common = ['-O1', '-w', '-DVERIF_TV', '-DHARNESS=' + fn, '-I' + RT, '-I' + d, '-I' + os.path.join(ROOT, 'props', self.id)] + ['-D' + x for x in defines]
         gen = os.path.join(d, 'tv_gen_' + tag); real = os.path.join(d, 'tv_real_' + tag)
         rc, out, err, _ = sh(['gcc'] + common + self.hpaths(u) + [os.path.join(RT, f) for f in u.rt] +
-                             [os.path.join(d, 'gen.c'), os.path.join(RT, 'native_main.c'), '-o', gen, '-lm'], timeout=600)
+                             [os.path.join(d, 'gen.o'), os.path.join(RT, 'native_main.c'), '-o', gen, '-lm'], timeout=600)
         if rc != 0: raise Inconclusive('gcc failed on generated C of %s/%s:\n%s' % (u.name, fn, err[-3000:]))
         rc, out, err, _ = sh(['gcc'] + common + ['-DVERIF_REAL'] + self.hpaths(u) + [os.path.join(RT, 'native_main.c'), os.path.join(d, 'real.o')] +
                              u.real_extra + ['-o', real, '-lstdc++', '-lm'], timeout=600)
